@@ -1,7 +1,7 @@
 # C03 tie: the extracted resume model (driver.ml) against the implementation's A / B runs and state files.
 import os, re
 import vcommon as V
-import resume as R
+import c03_resume as R
 
 TOL = 1e-9
 
